@@ -234,8 +234,22 @@ def get_method_and_class(class_object: Type, method_name: str) -> Optional[Tuple
 
     # Check for templated classes
     # TODO: Use inspect.getmro
+    if get_origin(class_object) is typing.Union:
+        # `Optional[X]` - the methods are those of `X`
+        not_none = [a for a in get_args(class_object) if a is not type(None)]
+        if len(not_none) != 1:
+            return None
+        return get_method_and_class(not_none[0], method_name)
     if not hasattr(class_object, "__mro__"):
         class_object = get_origin(class_object)  # type: ignore
+    if not hasattr(class_object, "__mro__"):
+        return None
+
+    # The class that defines the method, when it is written in one of the classes' bodies
+    # (with several base classes it need not be the first one that is looked at).
+    for c in inspect.getmro(class_object):
+        if method_name in vars(c):
+            return (c, getattr(c, method_name))
 
     # Walk the resolution hierarchy to find the method
     found_obj = None
